@@ -22,6 +22,9 @@ type CSpec struct {
 	State  string            `json:"state"`
 	Labels map[string]string `json:"labels"`
 	Frames []Frame           `json:"frames,omitempty"`
+	// Aliases: further entries of the daemon's Names list (legacy links add /parent/alias); the
+	// container is known to LogQL under Name only
+	Aliases []string `json:"aliases,omitempty"`
 }
 
 func (c CSpec) container() types.Container {
@@ -30,7 +33,7 @@ func (c CSpec) container() types.Container {
 		Created: 1700000000, State: c.State, Status: "Up 1 hour", Labels: c.Labels,
 	}
 	if c.Name != "" {
-		tc.Names = []string{c.Name}
+		tc.Names = append([]string{c.Name}, c.Aliases...)
 	}
 	return tc
 }
